@@ -40,6 +40,17 @@ prop('C18', 'model_checking',
      'mapped to tokens by first appearance; strings over a 10-class alphabet up to length 2',
      'TLA+ state machine + TLC exhaustive + transition replay + TLC trace validation', 'section 5 C18')
 
+prop('C15', 'model_checking',
+     'RedirectSig.tla models obtain-signer / sign / sign-within-one-call / verify by several entities with different keys '
+     'and the process-wide signer object as a design switch; TLC checks KeyOwnership and VerifiesOnlyOwn for every '
+     'interleaving of the repaired design (and exhibits the counterexample of the shared-object design as vacuity '
+     'control); every bounded behaviour that signs something and simulated longer ones are replayed with real RSA keys '
+     'sequentially and with one thread per entity, the key that really signed being determined by an independent '
+     'verifier; RedirectQuery.tla enumerates 600 (algorithm x message type x RelayState x mutation x certificate) '
+     'scenarios against the pipeline of verify_redirect_signature; random threaded executions are validated by TLC',
+     'interleaving at the granularity of API calls (obtain / sign / verify); 2-3 entities; real 2048-bit RSA keys',
+     'TLA+ interleaving model + TLC + behaviour replay (threads) + TLC trace validation', 'section 5 C15')
+
 
 def main():
     props = [json.loads(l) for l in open(os.path.join(VERIF, 'properties.jsonl'))]
